@@ -235,7 +235,7 @@ def build():
         params=dict(self=parallel(), iterator=lambda i: Opaque("limited", None, n=INT.fresh(i.ctx, "limit")), pre_dispatch=OneOf("all", INT)),
         requires=["jobs_tile(self._jobs, NY, JHI)", "limited_to(iterator) >= 1"],
         calls={"self._start": lambda i, a, k: start_summary(i, None, a, k), "self._retrieve": lambda i, a, k: retrieve_summary(i, None, a, k)},
-        ensures={"quiescent": Q},
+        ensures={"quiescent": Q, "everything_queued_is_delivered": "implies(not self._exception, NY == JHI)"},
         ensures_body={"torn_down_once_or_detached": "n_events('_terminate_and_reset') + n_events('detached-exit-thread') == 1",
                       "detached_only_for_a_foreign_thread_close": "implies(n_events('detached-exit-thread') == 1, self._exception is True)"},
         exsures={
